@@ -17,7 +17,7 @@ Print Assumptions C16_enqueue_iff.
 
 (* one write per sink that is in [written], in the logger's sink order (the observations of the sink loop) *)
 Theorem C16_sink_loop : forall e ks s, NoDup ks ->
-  obs (fst (dispatch s e ks)) = obs s ++ flat_map (fun k => [O_WRITE; N.of_nat k; wid e; elvl e]) (written s e ks) /\
+  obs (fst (dispatch s e ks)) = obs s ++ flat_map (fun k => [O_WRITE; N.of_nat k; wid e; elvl e; snamed e]) (written s e ks) /\
   snd (dispatch s e ks) = some_throws s e ks.
 Proof. exact dispatch_spec. Qed.
 Print Assumptions C16_sink_loop.
